@@ -45,12 +45,28 @@ def gen_cases(ctx):
                 # repeat / merge some remote messages
                 extra = [o for o in ops if o[0] == "remote" and rng.random() < 0.5]
                 cases.append((cfg, ops + extra))
+    # a later subscriber refuses the very notification in which a run finishes locally; the peer's stale state of
+    # that run (and its own report of the finish) arrive afterwards
+    for shape in (["R", "R"], ["R", "S"], ["R", "R", "R"]):
+        p = G.pattern(1, G.assign(shape, 0, "distinct"))
+        n = len(shape)
+        evs = [(i, i, 0, i + 1, 0, 0) for i in range(n)]
+        stale = dict(id=1000, ph=1, pat=1, idx=1, hist=[(p["blocks"][0]["group"], [evs[0]])])
+        done = dict(id=1000, ph=1, pat=1, idx=n, hist=[(p["blocks"][i]["group"], [evs[i]]) for i in range(n)])
+        for last in ([("local", evs[n - 1])], [("local", (9, 9, 0, 5, 0, 0))] if shape[-1] == "S" else []):
+            if not last:
+                continue
+            ops = [("local", e) for e in evs[:n - 1]] + last + [("remote", dict(comp=[], halt=[], upd=[stale])),
+                                                                ("remote", dict(comp=[done], halt=[], upd=[]))]
+            cases.append((dict(phen=[(1, [p])], maxcache=50, idbase=1000, refuse=[n - 1]), ops))
     for _ in range(1200 if ctx.quick else 20000):
         cfg = G.rand_config(rng, maxcache=50 if ctx.quick else 400, maxblocks=5)
         ops = G.rand_ops(rng, cfg, rng.randint(3, 10 if ctx.quick else 25), premote=0.45)
         for i0, o in reversed(list(enumerate(ops))):     # re-deliver some messages later (never earlier)
             if o[0] == "remote" and rng.random() < 0.3:
                 ops.insert(rng.randint(i0 + 1, len(ops)), o)
+        if rng.random() < 0.3:      # a subscriber behind the recorder refuses some notifications (the caller carries on)
+            cfg = dict(cfg, refuse=sorted(rng.sample(range(len(ops)), min(len(ops), rng.randint(1, 3)))))
         cases.append((cfg, ops))
     return cases
 
@@ -65,11 +81,13 @@ def work(case):
     # singleton patterns substitute identifiers (the local run stands for the remote one); their
     # at-most-one-run guarantee is C13's, so the per-identifier bookkeeping here covers the other patterns
     single = {(PL.phname(ph), PL.patname(p["name"])) for ph, ps in cfg["phen"] for p in ps if p["single"]}
+    refuse = set(cfg.get("refuse", ()))
     for k, op in enumerate(ops):
         if op[0] == "remote":
             named = {str(r["id"]) for kk in ("comp", "halt", "upd") for r in op[1][kk]}
             if named & seen:
                 nontrivial = True
+        dec.verif_boom.armed = k in refuse      # a later subscriber raises out of this notification
         o, lists = SD.apply_op(dec, rec, op)
         out += o
         if lists is None:
